@@ -26,6 +26,7 @@ func init() {
 }
 
 func runC03(c *Ctx) {
+	trimKeepsSubscriptions(c, "C03.e trim-keeps-subscribed-nodes", 3, 4, 5)
 	ptc := c.fn("mqtt", "(*Server).publishToClient")
 	c.whoCalls("C03.a one-enqueue-per-client", ptc, map[string]string{fnPubToSubs: "live delivery: one call per entry of Subscriptions (keyed by client id)", "(*mqtt.Server).publishRetainedToClient": "retained replay"})
 	if f := c.fn("mqtt", "(*Server).publishToSubscribers"); f != nil {
@@ -272,6 +273,77 @@ func runC04(c *Ctx) {
 		}
 		c.ob("C04.b identifiers-provenance", "(packets.Subscription).Merge records each subscription's identifier under its filter", c.pos(f.Pos()), fills, "")
 	}
+	// (d) operand roles of Merge: Merge(n) takes only n's scalar Identifier, so n must be a raw stored subscription and
+	// the receiver the accumulated entry; an accumulated entry passed as n loses all but one of its identifiers
+	nMerge, nAcc := 0, 0
+	for _, fn := range c.ModFns {
+		for _, ci := range c.callsNamed(fn, "(packets.Subscription).Merge") {
+			nMerge++
+			v := asCall(ci)
+			var into *ssa.MapUpdate
+			if v != nil {
+				for _, ref := range *v.Referrers() {
+					if mu, ok := ref.(*ssa.MapUpdate); ok && mu.Value == ssa.Value(v) {
+						into = mu
+					}
+				}
+			}
+			if into == nil {
+				c.ob("C04.d merge-roles", fmt.Sprintf("%s: Merge result under %s is stored into the accumulator map", fname(fn), guardKey(ci)), c.pos(ci.Pos()), false, "result is not stored into a map")
+				continue
+			}
+			acc := describe(into.Map)
+			fromAcc := func(x ssa.Value) bool {
+				found := false
+				var walk func(v ssa.Value, seen map[ssa.Value]bool)
+				walk = func(v ssa.Value, seen map[ssa.Value]bool) {
+					if seen[v] || found {
+						return
+					}
+					seen[v] = true
+					if l, ok := v.(*ssa.Lookup); ok && describe(l.X) == acc {
+						found = true
+						return
+					}
+					if ins, ok := v.(ssa.Instruction); ok {
+						for _, op := range ins.Operands(nil) {
+							if *op != nil {
+								walk(*op, seen)
+							}
+						}
+					}
+				}
+				walk(x, map[ssa.Value]bool{})
+				return found
+			}
+			if fromAcc(ci.Common().Args[0]) {
+				nAcc++
+			}
+			c.ob("C04.d merge-roles", fmt.Sprintf("%s: the subscription merged into %s (argument of Merge) is a raw stored subscription, not an accumulated entry", fname(fn), acc), c.pos(ci.Pos()),
+				!fromAcc(ci.Common().Args[1]), "Merge copies only the argument's scalar Identifier: an accumulated entry passed as the argument loses every identifier but one")
+		}
+	}
+	c.floor("C04.d Merge call sites", nMerge, 3)
+	_ = nAcc
+	// (e) only Merge creates an Identifiers map: subscriptions stored in the trie carry none, so the map a merged
+	// entry carries is private to one collector result and never aliases trie state
+	nW := 0
+	for _, fn := range c.ModFns {
+		for _, ins := range instrs(fn) {
+			st, ok := ins.(*ssa.Store)
+			if !ok {
+				continue
+			}
+			fa, ok := st.Addr.(*ssa.FieldAddr)
+			if !ok || fieldName(fa.X.Type(), fa.Field) != "Identifiers" || !strings.HasSuffix(strings.TrimPrefix(fa.X.Type().String(), "*"), "packets.Subscription") {
+				continue
+			}
+			nW++
+			c.ob("C04.e identifiers-owner", fmt.Sprintf("%s: store to Subscription.Identifiers (only Merge may create the map)", fname(fn)), c.pos(st.Pos()),
+				fname(fn) == "(packets.Subscription).Merge", "a stored subscription that carries its own Identifiers map shares it with every merged copy; Merge then writes other subscriptions' identifiers into trie state")
+		}
+	}
+	c.floor("C04.e stores to Subscription.Identifiers", nW, 1)
 	if f := c.fn("mqtt", "(*Server).processSubscribe"); f != nil {
 		var clamp *ssa.Store
 		for _, st := range storesTo(f, "sub.Qos") {
@@ -340,6 +412,42 @@ func runC12(c *Ctx) {
 	}
 	if f := c.fn("mqtt", "(*Client).ResendInflightMessages"); f != nil {
 		c.ob("C12.a deterministic-resend-order", "(*mqtt.Client).ResendInflightMessages resends in the order GetAll returns", c.pos(f.Pos()), c.call1(f, "(*mqtt.Inflight).GetAll") != nil, "")
+		// no record is skipped: an iteration ends only after the record was written (or the function returned)
+		var head, body *ssa.BasicBlock
+		for _, b := range f.Blocks {
+			switch b.Comment {
+			case "rangeindex.loop", "rangeiter.loop":
+				if head == nil {
+					head = b
+				}
+			case "rangeindex.body", "rangeiter.body":
+				if body == nil {
+					body = b
+				}
+			}
+		}
+		if head == nil || body == nil {
+			c.ob("C12.a deterministic-resend-order", "(*mqtt.Client).ResendInflightMessages iterates over the stored records", c.pos(f.Pos()), false, "loop not found")
+		} else {
+			_, hit := (&PathQuery{Fn: f, From: body.Instrs[0], Target: func(x ssa.Instruction) bool { return x == head.Instrs[0] }, Barrier: isNamed(fnWritePacket)}).Find()
+			c.ob("C12.a deterministic-resend-order", "(*mqtt.Client).ResendInflightMessages: no stored record is skipped — every iteration writes its record before the next one starts", c.pos(body.Instrs[0].Pos()), hit == nil,
+				"a record left for later is overtaken by newer messages published after the session resumed")
+		}
+	}
+	// (c) a packet never overtakes bytes still waiting in the client's write buffer
+	if f := c.fn("mqtt", "(*Client).WritePacket"); f != nil {
+		n := 0
+		for _, cl := range withAnon(f) {
+			for _, ins := range instrs(cl) {
+				cc := callOf(ins)
+				if cc != nil && cname(cc) == "(*bytes.Buffer).WriteTo" && strings.Contains(describe(cc.Args[1]), "Net.Conn") {
+					n++
+					c.underFact("C12.c no-overtaking", fname(cl)+": a direct connection write happens only while nothing is buffered ("+guardKey(ins)+")", ins, textEq("cl.Net.outbuf == nil"), true,
+						"a packet written straight to the connection overtakes earlier packets still held in outbuf")
+				}
+			}
+		}
+		c.floor("C12.c direct connection writes", n, 2)
 	}
 	// (b)
 	for _, fn := range c.ModFns {
@@ -388,6 +496,43 @@ func init() {
 	})
 }
 
+// phiLeaves expands a value through phi nodes into the values it may take.
+func phiLeaves(v ssa.Value, seen map[ssa.Value]bool) []ssa.Value {
+	if seen[v] {
+		return nil
+	}
+	seen[v] = true
+	if p, ok := v.(*ssa.Phi); ok {
+		var out []ssa.Value
+		for _, e := range p.Edges {
+			out = append(out, phiLeaves(e, seen)...)
+		}
+		return out
+	}
+	return []ssa.Value{v}
+}
+
+// valueDependsOn reports whether v is computed from src (through operands of pure instructions and calls).
+func valueDependsOn(v, src ssa.Value, seen map[ssa.Value]bool) bool {
+	if v == src {
+		return true
+	}
+	if seen[v] {
+		return false
+	}
+	seen[v] = true
+	ins, ok := v.(ssa.Instruction)
+	if !ok {
+		return false
+	}
+	for _, op := range ins.Operands(nil) {
+		if *op != nil && valueDependsOn(*op, src, seen) {
+			return true
+		}
+	}
+	return false
+}
+
 func runC18(c *Ctx) {
 	for _, name := range []string{"(*Ledger).ACLOk", "(*Ledger).AuthOk"} {
 		f := c.fn("hooks/auth", name)
@@ -415,6 +560,7 @@ func runC18(c *Ctx) {
 				continue
 			}
 			results := map[string]bool{}
+			entryDep := false
 			for _, ret := range returns(f) {
 				// a return is "inside the loop body" if it is reachable from next without leaving through the loop-exit edge
 				// (the exit edge is the false edge of the `ok` extract test in next's block)
@@ -425,7 +571,14 @@ func runC18(c *Ctx) {
 				}}).Find()
 				if hit != nil {
 					vs := rvs(ret)
-					results[describe(vs[len(vs)-1])] = true
+					for _, leaf := range phiLeaves(vs[len(vs)-1], map[ssa.Value]bool{}) {
+						if valueDependsOn(leaf, next, map[ssa.Value]bool{}) {
+							results["a value computed from the visited entry ("+describe(leaf)+")"] = true
+							entryDep = true
+						} else {
+							results[describe(leaf)] = true
+						}
+					}
 				}
 			}
 			var rs []string
@@ -433,7 +586,7 @@ func runC18(c *Ctx) {
 				rs = append(rs, k)
 			}
 			sort.Strings(rs)
-			c.ob("C18.a no-order-dependent-map-range", fmt.Sprintf("%s: range over map %s cannot return different results for different entries", fname(f), describe(r.X)), c.pos(r.Pos()), len(rs) <= 1,
+			c.ob("C18.a no-order-dependent-map-range", fmt.Sprintf("%s: range over map %s cannot return different results for different entries", fname(f), describe(r.X)), c.pos(r.Pos()), len(rs) <= 1 && !entryDep,
 				"the body returns "+strings.Join(rs, " or ")+" depending on which matching entry Go's randomised map iteration visits first")
 		}
 		for _, b := range f.Blocks {
@@ -466,6 +619,36 @@ func runC18(c *Ctx) {
 			vs := rvs(r)
 			if describe(vs[1]) != "true" {
 				continue
+			}
+			// whole-level comparison: a positive result needs the topic to have been cut at its level separators
+			var topicParam ssa.Value
+			for _, p := range f.Params {
+				if p.Name() == "topic" {
+					topicParam = p
+				}
+			}
+			sepSeen := false
+			if topicParam != nil && !dominatedByFact(r, textEq(`filter == "#"`), true) {
+				for _, ins := range instrs(f) {
+					ci, isCall := ins.(ssa.CallInstruction)
+					if !isCall || !domInstr(ins, r) {
+						continue
+					}
+					onTopic, sep := false, false
+					for _, a := range ci.Common().Args {
+						if valueDependsOn(a, topicParam, map[ssa.Value]bool{}) {
+							onTopic = true
+						}
+						if k, isK := a.(*ssa.Const); isK && k.Value != nil && strings.Contains(k.Value.ExactString(), "/") && !strings.Contains(k.Value.ExactString(), "#") {
+							sep = true
+						}
+					}
+					if onTopic && sep {
+						sepSeen = true
+					}
+				}
+				c.ob("C18.c level-semantics", fmt.Sprintf("hooks/auth.MatchTopic: the positive result under %s is decided on whole topic levels (the topic was cut at '/')", guardKey(r)), c.pos(r.Pos()), sepSeen,
+					"a match decided on raw string prefixes lets home/# match homework/answers")
 			}
 			// returns inside the '#' branch are fine
 			if dominatedByFact(r, func(t string) bool { return strings.HasSuffix(t, `== "#"`) }, true) {
